@@ -11,7 +11,7 @@ from ..core import rule
 from ..engine import cfg as cfgmod, flow
 from ..engine import pattern as P
 from ..engine.facts import dotted, const, src, walk_func, enclosing_stmt, ancestors
-from .common import calls, stmt_nodes, exc_successors, norm_successors, contains, is_subclass, param_default, pn, access_paths
+from .common import calls, stmt_nodes, exc_successors, norm_successors, contains, is_subclass, param_default, pn, access_paths, guards_of, return_leaves, arms, branch_paths
 
 
 @rule("C14.failure-cleanup", min_instances=4)
@@ -124,10 +124,10 @@ def freshness_polarity(ctx):
     # filesystem_checks off => _check not reached
     gt = db.func("lookup.TemplateLookup.get_template")
     for cc in calls(gt, "self._check"):
-        guarded = any(isinstance(a, ast.If) and src(a.test) == "self.filesystem_checks" and any(contains(b, cc) for b in a.body) for a in ancestors(cc))
+        guarded = ("self.filesystem_checks", True) in guards_of(cc, gt)
         ctx.check(guarded, "filesystem_checks-guard", db.where(cc), "_check is called even when filesystem_checks is false", "only under `if self.filesystem_checks`")
         ctx.check(len(cc.args) == 2 and src(cc.args[0]) == pn(gt, 1) and src(cc.args[1]) == "self._collection[%s]" % pn(gt, 1), "check-args", db.where(cc), "checks %s" % src(cc), "checks the cached entry for the same uri")
-    others = [n for n in walk_func(gt) if isinstance(n, ast.Return) and src(n.value) == "self._collection[%s]" % pn(gt, 1)]
+    others = [v_ for v_, g_ in return_leaves(gt) if src(v_) == "self._collection[%s]" % pn(gt, 1) and ("self.filesystem_checks", False) in g_]
     ctx.check(bool(others), "no-check-return", db.where(gt), "no plain cached return for filesystem_checks=False", "returns self._collection[uri] unchecked when checks are off")
 
 
